@@ -8,7 +8,7 @@
    [run (init c t0) ops] is the list of their results, [final (init c t0) ops] the
    state afterwards; [capacity s now] is the code's maxFlight() evaluated at [now]. *)
 From Coq Require Import List ZArith QArith Bool.
-From GZ Require Import Lib.RollingWindow Lib.RollingWindowSpec C02.Model C02.Conc C02.Proofs C02.ProofsConc C02.ProofsConcHot.
+From GZ Require Import Lib.RollingWindow Lib.RollingWindowSpec C02.Model C02.Conc C02.Proofs C02.ProofsConc C02.ProofsConcHot C02.ProofsConcSat.
 Import ListNotations.
 Open Scope Z_scope.
 
@@ -101,6 +101,29 @@ Theorem shed_only_if_hot_and_loaded_interleaved : forall c t0 calls sched i t no
   (overloadFactorLowerBound * reg_capacity (window_scale c) t < tavg t)%Q.
 Proof. exact conc_shed_only_core. Qed.
 
+(* 2'. Theorem 2 for concurrent calls: for every set of calls and every schedule, an Allow
+      thread that has returned, whose CPU reading was at or above the threshold (outside
+      the NaN corner) and which read an in-flight count and an average above the full
+      capacity computed from the maxPass / minRt it read, has returned
+      ErrServiceOverloaded. *)
+Theorem shed_when_saturated_interleaved : forall c t0 calls sched i t now cpu1 cpu2 r,
+  nth_error (snd (crun (start c t0 calls) sched)) i = Some t ->
+  tcall t = CAllow now cpu1 cpu2 -> tres t = Some r ->
+  cthreshold c <= cpu1 ->
+  ~ (cthreshold c = cpuMax /\ cpu2 = cpuMax) ->
+  (reg_capacity (window_scale c) t < inject_Z (tfl t))%Q ->
+  (reg_capacity (window_scale c) t < tavg t)%Q ->
+  r = RShed.
+Proof. exact conc_saturated_core. Qed.
+
+(* 4'. Theorem 4 for concurrent calls: under every schedule, an Allow thread whose read
+      of the in-flight count returned 0 (or less) is not shed.  ([tfl] is only written
+      by highThru's load of flying; a thread that never got there is not shed either.) *)
+Theorem idle_never_sheds_interleaved : forall c t0 calls sched i t now cpu1 cpu2,
+  nth_error (snd (crun (start c t0 calls) sched)) i = Some t ->
+  tcall t = CAllow now cpu1 cpu2 -> tfl t <= 0 -> tres t <> Some RShed.
+Proof. exact conc_idle_core. Qed.
+
 (* 4. With nothing in flight no request is shed (capacity >= 1). *)
 Theorem idle_never_sheds : forall c t0 pre now cpu1 cpu2,
   cenabled c = true ->
@@ -162,6 +185,8 @@ Print Assumptions flying_conservation_wf.
 Print Assumptions flying_nonneg_interleaved.
 Print Assumptions capacity_def.
 Print Assumptions shed_only_if_hot_and_loaded_interleaved.
+Print Assumptions shed_when_saturated_interleaved.
+Print Assumptions idle_never_sheds_interleaved.
 
 (* ------------------------------------------------------------------ *)
 (* The hypotheses are satisfiable by concrete, non-trivial histories.    *)
@@ -248,3 +273,20 @@ Example ex_conc_shed :
   let m := crun (start cfg1 B calls) sched in
   option_map tres (nth_error (snd m) 18) = Some (Some RShed) /\ flying (fst m) = 6.
 Proof. vm_compute. split; reflexivity. Qed.
+
+(* a concurrent Allow meeting the hypotheses of theorem 2': 12 requests let in, 6 passed
+   after 5 ms; 150 ms later the CPU reads 950 *)
+Example ex_conc_saturated :
+  let calls := map (fun _ => CAllow B 0 0) (seq 0 12) ++ map (fun i => CPass i (B + 5 * ms)) (seq 0 6)
+               ++ [CAllow (B + 150 * ms) 950 950] in
+  let sched := (concat (map (fun i => repeat i 10) (seq 0 12)) ++ concat (map (fun i => repeat i 4) (seq 12 6))
+                ++ repeat 18 10)%nat in
+  let m := crun (start cfg1 B calls) sched in
+  match nth_error (snd m) 18 with
+  | Some t => cthreshold cfg1 <= 950 /\
+              (reg_capacity (window_scale cfg1) t < inject_Z (tfl t))%Q /\
+              (reg_capacity (window_scale cfg1) t < tavg t)%Q /\
+              tres t = Some RShed /\ tfl t = 6 /\ tmp t = 6 /\ trt t = 5
+  | None => False
+  end.
+Proof. vm_compute. repeat split; try reflexivity; discriminate. Qed.
